@@ -16,7 +16,8 @@ from typing import Any, Optional
 from collections.abc import Callable, Iterable, Iterator
 from elementpath.protocols import ElementProtocol
 from elementpath.exceptions import xpath_error
-from elementpath.datatypes import UntypedAtomic, AnyURI, AbstractQName
+from elementpath.datatypes import UntypedAtomic, AnyURI, AbstractQName, AbstractDateTime, \
+    AbstractBinary
 from elementpath.collations import UNICODE_CODEPOINT_COLLATION, CollationManager
 from elementpath.xpath_nodes import XPathNode, EtreeElementNode, TextAttributeNode, \
     NamespaceNode, TextNode, CommentNode, ProcessingInstructionNode, EtreeDocumentNode
@@ -134,6 +135,10 @@ def deep_equal(seq1: Iterable[Any],
                             return False
 
                     elif isinstance(value2, AbstractQName):
+                        return False
+
+                    elif isinstance(value1, AbstractBinary) and isinstance(value2, AbstractBinary) \
+                            and type(value1) is not type(value2):
                         return False
 
                     elif isinstance(value1, (str, AnyURI, UntypedAtomic)) \
@@ -409,6 +414,11 @@ def same_key(k1: Any, k2: Any) -> bool:
         return False
     elif isinstance(k1, bool) ^ isinstance(k2, bool):
         return False  # a boolean is never the same key as a number (True == 1 in Python)
+    elif isinstance(k1, AbstractDateTime) and isinstance(k2, AbstractDateTime) and \
+            (k1.tzinfo is None) ^ (k2.tzinfo is None):
+        return False  # both or neither value must have a timezone
+    elif isinstance(k1, AbstractBinary) and isinstance(k2, AbstractBinary) and type(k1) is not type(k2):
+        return False  # xs:hexBinary and xs:base64Binary are not comparable
 
     try:
         return True if k1 == k2 else False
